@@ -133,7 +133,7 @@ pub fn search(
                     cases: per as u32,
                     failure_persistence: None,
                     rng_seed: RngSeed::Fixed(seed ^ (w.wrapping_mul(0x9E37_79B9_7F4A_7C15)).wrapping_add(w)),
-                    max_shrink_iters: 6000,
+                    max_shrink_iters: 2500,
                     max_global_rejects: 1,
                     ..Config::default()
                 };
@@ -191,14 +191,19 @@ pub fn search(
                         }
                     }
                     if let Some(v) = fatal {
+                        if !was_failed && stop.swap(true, Ordering::SeqCst) {
+                            // another worker is already shrinking a failure
+                            return Ok(());
+                        }
                         failed.set(true);
-                        stop.store(true, Ordering::Relaxed);
                         return Err(TestCaseError::fail(format!("{}: {}", v.kind, v.msg)));
                     }
                     Ok(())
                 });
                 if let Err(TestError::Fail(_reason, tapes)) = res {
-                    // re-run the minimal case to get violation + decoded form
+                    // finishing shrink of ours, then re-run the minimal case to get
+                    // violation + decoded form
+                    let tapes = shrink_tapes(check, prop, tapes, known, 1500);
                     let rep = guarded(check, &tapes, true);
                     let dec = rep.decoded.clone().unwrap_or(Value::Null);
                     let viol = rep
@@ -239,4 +244,93 @@ pub fn stats_json(s: &Stats) -> Value {
         "other_property_hits": s.other_props,
         "known_finding_hits": s.known,
     })
+}
+
+/// Deterministic tape shrinker (finishing step after proptest's own shrinking,
+/// and the only shrinker for libFuzzer artifacts): chunk deletion, truncation,
+/// zeroing and halving of values, kept while the *same property* still fails.
+pub fn shrink_tapes(
+    check: &dyn Check,
+    prop: &str,
+    tapes: Vec<Vec<u16>>,
+    known: KnownFn,
+    max_evals: usize,
+) -> Vec<Vec<u16>> {
+    let fails = |t: &[Vec<u16>]| -> bool {
+        let rep = guarded(check, t, true);
+        let dec = rep.decoded.clone().unwrap_or(Value::Null);
+        rep.violations
+            .iter()
+            .any(|v| v.prop == prop && known(v, &dec).is_none())
+    };
+    let mut best = tapes;
+    if !fails(&best) {
+        return best;
+    }
+    let mut evals = 0usize;
+    let mut progress = true;
+    while progress && evals < max_evals {
+        progress = false;
+        for ti in 0..best.len() {
+            // truncate
+            let mut len = best[ti].len();
+            while len > 0 && evals < max_evals {
+                let mut cand = best.clone();
+                cand[ti].truncate(len / 2);
+                evals += 1;
+                if fails(&cand) {
+                    best = cand;
+                    len = best[ti].len();
+                    progress = true;
+                } else {
+                    break;
+                }
+            }
+            // delete chunks
+            let mut chunk = (best[ti].len() / 2).max(1);
+            while chunk >= 1 && evals < max_evals {
+                let mut i = 0;
+                while i + chunk <= best[ti].len() && evals < max_evals {
+                    let mut cand = best.clone();
+                    cand[ti].drain(i..i + chunk);
+                    evals += 1;
+                    if fails(&cand) {
+                        best = cand;
+                        progress = true;
+                    } else {
+                        i += chunk;
+                    }
+                }
+                if chunk == 1 {
+                    break;
+                }
+                chunk /= 2;
+            }
+            // zero / halve values
+            for i in 0..best[ti].len() {
+                if evals >= max_evals {
+                    break;
+                }
+                if best[ti][i] == 0 {
+                    continue;
+                }
+                let mut cand = best.clone();
+                cand[ti][i] = 0;
+                evals += 1;
+                if fails(&cand) {
+                    best = cand;
+                    progress = true;
+                    continue;
+                }
+                let mut cand = best.clone();
+                cand[ti][i] /= 2;
+                evals += 1;
+                if fails(&cand) {
+                    best = cand;
+                    progress = true;
+                }
+            }
+        }
+    }
+    best
 }
